@@ -22,6 +22,19 @@ theorem upstream_conserved (fixed : Bool) (sid : Nat) (cs : List Choice)
       = (run fixed (init sid) cs).accepted.flatten :=
   (inv_run fixed _ cs (inv_init sid)).up h200
 
+/-- **no duplication**: while every answer was 200 the request bodies issued so far are a
+    prefix of the accepted writes — a body is sent once, however long its answer takes (the
+    model re-sends a body only after a non-200 answer, `WPc.retry`). -/
+theorem no_duplication (fixed : Bool) (sid : Nat) (cs : List Choice)
+    (h200 : (run fixed (init sid) cs).failed = false) :
+    bodies (run fixed (init sid) cs) <+: (run fixed (init sid) cs).accepted.flatten :=
+  ⟨_, by rw [← List.append_assoc]; exact upstream_conserved fixed sid cs h200⟩
+
+/-- the `http.Transport` of a connection has no response timeout (regenerated from the Go tree:
+    `newMeekConn`): a slow answer is waited for, the request is not given up and re-sent. -/
+theorem transport_never_gives_up_on_a_slow_answer :
+    transportResponseHeaderTimeout = 0 := by decide
+
 /-- two writes are queued while a poll is in flight and coalesced into the next request -/
 example :
     let s := run true (init 7) [.wTimer, .wStep, .writeCall [1, 2], .writeEnq, .writeCall [3], .writeEnq,
